@@ -2,6 +2,7 @@ package interp
 
 import (
 	"go/types"
+	"strconv"
 
 	"gosym/sym"
 
@@ -87,6 +88,7 @@ func modelFindAllStringSubmatch(e *Exec, c *frame, fn *ssa.Function, a []Value) 
 const (
 	oidText    = 25
 	oidVarchar = 1043
+	oidInt4    = 23
 )
 
 func modelPgNewMap(e *Exec, c *frame, fn *ssa.Function, a []Value) Value {
@@ -117,6 +119,30 @@ func modelPgEncode(e *Exec, c *frame, fn *ssa.Function, a []Value) Value {
 	e.encLog = append(e.encLog, sym.SignExt(a[2].(sym.Sc), 64))
 	fail := func(msg string) Value {
 		return Tuple{Slice{Len: i64zero, Cap: i64zero}, e.newErrorString("unable to encode: " + msg)}
+	}
+	// int4 with an int32 value: 4 bytes big-endian in binary format, decimal
+	// text otherwise (makes the format handed to the encoder observable on the wire)
+	if iv, isInt := val.V.(sym.Sc); isInt && iv.W == 32 {
+		if e.Branch(sym.Eq(oid, sym.Const(32, oidInt4))) {
+			format := a[2].(sym.Sc)
+			if e.Branch(sym.Eq(format, sym.Const(16, 1))) {
+				st := e.newStore(byteT, i64(4))
+				for k := 0; k < 4; k++ {
+					*st.cell(k) = e.norm(sym.Trunc(sym.Lshr(iv, sym.Const(32, uint64(24-8*k))), 8))
+				}
+				return Tuple{e.appendBytes(buf, Slice{St: st, Len: st.N, Cap: st.N}), Iface{}}
+			}
+			var txt Slice
+			if iv.K {
+				txt = litString(strconv.FormatInt(iv.Signed(), 10))
+			} else {
+				if !e.Branch(sym.And(sym.Sle(sym.Const(32, 0), iv), sym.Slt(iv, sym.Const(32, 100000)))) {
+					e.unsupported("pgtype model: text encoding of a symbolic int4 outside 0..99999")
+				}
+				txt = e.decimal(sym.ZeroExt(iv, 64))
+			}
+			return Tuple{e.appendBytes(buf, txt), Iface{}}
+		}
 	}
 	// text-like OIDs only
 	textLike := sym.Or(sym.Eq(oid, sym.Const(32, oidText)), sym.Eq(oid, sym.Const(32, oidVarchar)))
